@@ -23,6 +23,7 @@ def main(argv):
     ap.add_argument('tier', nargs='?', default=None)
     ap.add_argument('--replay')
     ap.add_argument('--minimise')
+    ap.add_argument('--history')
     ap.add_argument('--out')
     ap.add_argument('--worker', action='store_true')
     ap.add_argument('--seed', type=int, default=None)
@@ -43,6 +44,8 @@ def main(argv):
         return runner.worker_main(prop, a.seed, a.start, a.stride, a.count, a.out, a.wallcap, a.log_digests, a.run_offset, a.deep)
     if a.minimise:
         return runner.minimise_main(prop, a.minimise, a.out)
+    if a.history:
+        return runner.history_main(prop, a.history, a.out)
     if a.replay:
         return runner.replay_main(prop, a.replay)
     tier = a.tier or os.environ.get('VERIF_TIER') or 'quick'
